@@ -377,18 +377,49 @@ open SparseV.Own
 
 /-- **reachable_correct.** The one-pass marking the executable model (and the harness comparison)
 uses is graph reachability from the program's references. -/
-theorem reachable_correct (cs : List Cmd) (h : Heap) (hr : run Cfg.code Heap.empty cs = some h) (o : Nat) :
+theorem reachable_correct (cs : List Cmd) (h : Heap) (hex : ExcludedHistory cs = false)
+    (hr : run Cfg.code Heap.empty cs = some h) (o : Nat) :
     o ∈ reachable h ↔ Reach h o :=
-  mem_reachable_iff (run_WF cs WF.empty hr) o
+  mem_reachable_iff (run_WF cs hex WF.empty hr) o
 
-/-- **no_dangling.** After ANY history of commands — creating arrays, views, storages from input
+/-- the full statement: no history at all leaves a reachable object over a released buffer, and no
+buffer is released twice -/
+def Statement_no_dangling : Prop :=
+  ∀ (cs : List Cmd) (h : Heap), run Cfg.code Heap.empty cs = some h → dangling h = [] ∧ h.freed.Nodup
+
+/-- the history of `r = reshape(asarray(a), a.shape)` for 1-d `a`, then `del r`, `del a`, `del x`:
+the result's storage releases `a`'s buffer (object 4) while `x` still reads it, and `a` releases it again -/
+def aliasWitness : List Cmd :=
+  [.newArray 7, .npView 0, .mkStorage [1], .mkArray 2, .drop 1, .drop 2,      -- a, x = asarray(a)
+   .opAliased 3, .mkArray 4, .drop 4,                                          -- r = reshape(x, x.shape)
+   .drop 5, .finalize 5, .finalize 4]                                          -- del r
+
+/-- **no_dangling_counterexample.** The code violates the full statement: a rank-1 `reshape` returns
+an owning storage over its operand's buffer; deleting the result releases the input's buffer while
+the operand is still reachable (use after free), and deleting the input releases it again
+(double free — glibc aborts the process). -/
+theorem no_dangling_counterexample : ¬ Statement_no_dangling := by
+  intro h
+  have h1 := h aliasWitness _ rfl
+  revert h1
+  decide
+
+/-- the same history continued: the input's own finalisation releases the buffer a second time -/
+theorem double_free_counterexample :
+    ∃ h, run Cfg.code Heap.empty (aliasWitness ++ [.drop 3, .finalize 3, .finalize 2, .finalize 1, .drop 0, .finalize 0]) = some h
+      ∧ ¬ h.freed.Nodup := by
+  refine ⟨_, rfl, ?_⟩
+  decide
+
+/-- **no_dangling.** (partial: histories without the aliasing `reshape`) After ANY history of commands — creating arrays, views, storages from input
 arrays (`_hold_ref(storage, arr)`), results of add/reshape/asformat (`owns_memory=True`), the views
 of `get_constituent_arrays` (`_hold_ref(view, storage)`), dropping references in any order and
 finalising unreachable objects one at a time in any order — every buffer addressed by an object
 that the program can still reach has not been released. -/
-theorem no_dangling (cs : List Cmd) (h : Heap) (hr : run Cfg.code Heap.empty cs = some h)
+theorem no_dangling (cs : List Cmd) (h : Heap) (hex : ExcludedHistory cs = false)
+    (hr : run Cfg.code Heap.empty cs = some h)
     (o : Nat) (ho : Reach h o) (b : Nat) (hb : b ∈ (h.obj o).bufs) : b ∉ h.freed := by
-  have hw : WF h := run_WF cs WF.empty hr
+  have hw : WF h := run_WF cs hex WF.empty hr
   obtain ⟨w, hp, hwo⟩ := hw.keeps_owner o b hb
   have hrw : Reach h w := ho.path hp
   intro hf
@@ -397,27 +428,30 @@ theorem no_dangling (cs : List Cmd) (h : Heap) (hr : run Cfg.code Heap.empty cs 
   exact hw.reach_alive w hrw (this ▸ hwd)
 
 /-- the executable form the driver evaluates: the list of (reachable object, released buffer) is empty -/
-theorem no_dangling_exec (cs : List Cmd) (h : Heap) (hr : run Cfg.code Heap.empty cs = some h) : dangling h = [] := by
-  have hw : WF h := run_WF cs WF.empty hr
+theorem no_dangling_exec (cs : List Cmd) (h : Heap) (hex : ExcludedHistory cs = false)
+    (hr : run Cfg.code Heap.empty cs = some h) : dangling h = [] := by
+  have hw : WF h := run_WF cs hex WF.empty hr
   unfold dangling
   rw [List.flatMap_eq_nil_iff]
   intro o ho
   rw [List.map_eq_nil_iff, List.filter_eq_nil_iff]
   intro b hb hc
-  exact no_dangling cs h hr o ((mem_reachable_iff hw o).mp ho) b hb (List.contains_iff_mem.mp hc)
+  exact no_dangling cs h hex hr o ((mem_reachable_iff hw o).mp ho) b hb (List.contains_iff_mem.mp hc)
 
 /-- **no_double_free.** No buffer is released twice, and a buffer is released only by the
 finalisation of its unique owner. -/
-theorem no_double_free (cs : List Cmd) (h : Heap) (hr : run Cfg.code Heap.empty cs = some h) :
+theorem no_double_free (cs : List Cmd) (h : Heap) (hex : ExcludedHistory cs = false)
+    (hr : run Cfg.code Heap.empty cs = some h) :
     h.freed.Nodup ∧ ∀ b ∈ h.freed, ∃ w, w ∈ h.dead ∧ b ∈ (h.obj w).owns :=
-  let hw := run_WF cs WF.empty hr
+  let hw := run_WF cs hex WF.empty hr
   ⟨hw.freed_nodup, hw.freed_owner⟩
 
 /-- **no_leak.** Every buffer owned by a finalised object has been released (results of
 add/reshape/asformat own their buffers). -/
-theorem no_leak (cs : List Cmd) (h : Heap) (hr : run Cfg.code Heap.empty cs = some h)
+theorem no_leak (cs : List Cmd) (h : Heap) (hex : ExcludedHistory cs = false)
+    (hr : run Cfg.code Heap.empty cs = some h)
     (w : Nat) (hw : w ∈ h.dead) (b : Nat) (hb : b ∈ (h.obj w).owns) : b ∈ h.freed :=
-  (run_WF cs WF.empty hr).dead_freed w hw b hb
+  (run_WF cs hex WF.empty hr).dead_freed w hw b hb
 
 /-- **inputs_not_written.** No command of the library — conversions, operations, views, deletions,
 finalisations, in any order and for any `_hold_ref` configuration — changes the contents of a buffer
